@@ -8,7 +8,7 @@ following write goes through a dangling or NULL pointer."""
 import re
 
 from ..core import AnalysisError, anchor
-from .. import cfront
+from .. import cfront, normal
 from ..cfront import walk, strip, render, is_assign, callee_name, call_args, line_of, qtype
 
 DESTRUCTORS = {
@@ -65,7 +65,8 @@ def growth_pairs(tus):
         for fname, fn in tu.funcs.items():
             if cfront.basename(fn.get('_locfile') or fn.get('_file')) != c:
                 continue
-            visit(cfront.body(fn), [], fname, c)
+            # `if (room) return; grow;` is read as `if (!room) { grow; }`
+            visit(cfront.body(normal.normalised_function(fn)), [], fname, c)
     return pairs, sites
 
 
